@@ -12,7 +12,8 @@ well-formed values whenever they return at all, given well-formed operands.
 `Ty.ok nfc t` is the type-level part of WF: representation invariant, no
 optional-attribute annotation anywhere, attribute names normalised.
 -/
-import CtyModel.Lemmas.WFCons
+import CtyModel.Lemmas.WFCall
+import CtyModel.Props.C02
 namespace CtyModel
 namespace C06
 open Value
@@ -67,6 +68,53 @@ theorem wf_setValEmpty {e : Ty} (h : e.ok nfc = true) : (setValEmpty e).WF nfc =
 theorem wf_emptyTupleVal : emptyTupleVal.WF nfc = true := Value.wf_emptyTupleVal
 theorem wf_emptyObjectVal : emptyObjectVal.WF nfc = true := Value.wf_emptyObjectVal
 theorem wf_capsuleVal (id : Nat) : (capsuleVal id).WF nfc = true := Value.wf_capsuleVal id
+
+/-! ### `SetVal`: "sets hold no marked and no duplicate members"
+
+The full statement — `SetVal` on well-formed members returns a well-formed set, whatever hashes the
+implementation computed for the members — is FALSE of the code as it exists: `Set.Add` compares a new member
+only with the members of its own hash bucket, and `setRules.Hash` (10 significant digits of the number) is
+not coherent with `setRules.Equivalent` (shortest decimal text at the number's own precision).  It is kept
+here as a `def`; `wf_setVal_partial` proves it under the decidable side condition `setRulesOk` (on the
+members: `Equivalent` symmetric, equivalent members hashed alike — the contract of cty/set/rules.go);
+`wf_setVal_counterexample` is the witness, with the hashes the real code computes (harness finding
+`set-duplicate:equal-numbers-hash-by-String()-differs`). -/
+def SetValWF : Prop :=
+  ∀ (ws : List Value) (hs : List Int) (r : Value), setVal ws hs = .ok r →
+    (∀ w ∈ ws, w.WF (fun _ => true) = true) → r.WF (fun _ => true) = true
+
+/-- `SetVal`, whenever it returns, given well-formed members on which the set rules are lawful: members
+deeply unmarked (their marks hoisted to the one outer layer), in bucket order, no two equivalent. -/
+theorem wf_setVal_partial {ws : List Value} {hs : List Int} {r : Value} (h : setVal ws hs = .ok r)
+    (hws : ∀ w ∈ ws, w.WF nfc = true)
+    (hok : ∀ et, Gocty.elemTypeOf .dyn (ws.map setMember) = .ok et →
+      setRulesOk et ((Gocty.payloads (ws.map setMember)).zip hs) = true) : r.WF nfc = true :=
+  Value.wf_setVal_partial h hws hok
+
+/-- 5·2⁻⁴ at 4 bits and 19·2⁻⁶ at 5 bits both print as "0.3" (`Equals` true) but as 0.3125 and 0.296875 with
+ten digits (hashes 3082649553 and 2741159366 in the real code): the set keeps both. -/
+def dupMembers : List Value := [numVal (.fin false 5 (-4) 4), numVal (.fin false 19 (-6) 5)]
+def dupHashes : List Int := [3082649553, 2741159366]
+
+theorem wf_setVal_counterexample :
+    (∀ w ∈ dupMembers, w.WF (fun _ => true) = true) ∧
+    ∃ r, setVal dupMembers dupHashes = .ok r ∧ r.WF (fun _ => true) = false := by
+  refine ⟨by decide, ?_⟩
+  have hok : (match setVal dupMembers dupHashes with
+      | .ok r => !r.WF (fun _ => true)
+      | _ => false) = true := by decide
+  cases h : setVal dupMembers dupHashes with
+  | ok r => rw [h] at hok; exact ⟨r, rfl, by simpa using hok⟩
+  | err _ => rw [h] at hok; cases hok
+  | panic _ => rw [h] at hok; cases hok
+  | unmodelled => rw [h] at hok; cases hok
+
+theorem setValWF_false : ¬ SetValWF := by
+  intro h
+  obtain ⟨hm, r, hr, hwf⟩ := wf_setVal_counterexample
+  have := h dupMembers dupHashes r hr hm
+  rw [hwf] at this
+  cases this
 
 /-! ## marks (cty/marks.go): "a value carries at most one layer of marks" -/
 
@@ -139,6 +187,62 @@ theorem wf_getAttr (v : Value) (name : String) (r : Value) (hv : v.WF nfc = true
 theorem wf_index (v k r : Value) (hv : v.WF nfc = true) (h : v.index k = .ok r) : r.WF nfc = true :=
   Res.all_iff.mp (all_wf_index v k hv) r h
 
+/-! ## refinement builders (cty/unknown_refinement.go) -/
+
+/-- `v.Refine().<any chain of builder calls>.NewValue()`, whenever it returns: the receiver itself (known
+values), a null, an unknown whose refinement is of the kind the type calls for, or one of the collapsed known
+values (equal bounds, length 0, list of n unknowns, one-member set) — well-formed, marks back in one layer. -/
+theorem wf_refine (v : Value) (cs : List Refine.RefineCall) (r : Value) (hv : v.WF nfc = true)
+    (h : Refine.refine v cs = .ok r) : r.WF nfc = true :=
+  Res.all_iff.mp (Refine.wf_refine v cs hv) r h
+
+/-! ## function calls (cty/function/function.go) -/
+
+/-- `Function.Call`: for ALL specifications, arguments and callbacks that keep their side — the `Type` callback
+names a type a value may have, `Impl` returns well-formed values, `RefineResult` only uses the builder — what
+`Call` returns (an unknown of the checked type carrying the arguments' marks, or the callback's value with marks
+and refinement applied) is well-formed. -/
+theorem wf_call (spec : Fn.Spec) (tf : Fn.TypeFn) (impl : Fn.ImplFn) (args : List Value) (r : Value)
+    (htf : ∀ as t, tf as = .ok t → t.ok nfc = true)
+    (himpl : ∀ as t v, impl as t = .ok v → v.WF nfc = true)
+    (href : ∀ rf, spec.refine = some rf → ∀ v p, v.WF nfc = true → rf v = some p →
+      (⟨v.ty, p⟩ : Value).WF nfc = true)
+    (h : (Fn.call spec tf impl args).1 = .ok r) : r.WF nfc = true :=
+  Fn.wf_call spec tf impl args r htf himpl href h
+
+/-! ## "every accessor applicable to that type succeeds" -/
+
+/-- On a well-formed value every applicable accessor returns (never `.panic`):
+`Range()` on any unmarked value; on a known, non-null, unmarked value `True()` / `AsBigFloat()` / `AsString()`
+for the three primitive types (and the string is NFC), `LengthInt()` and `ElementIterator()` for collections
+and structural types — agreeing on the number of members, every member handed out being well-formed for the
+declared element / attribute type — `GetAttr` for every declared attribute (also on unknown objects), and
+`Index` for every position of a list. -/
+theorem accessors_total (v : Value) (hv : v.WF nfc = true) (hm : v.isMarked = false) :
+    (∃ r, v.range = .ok r) ∧
+    (∀ ns ts os, v.ty = .object ns ts os → v.isNull = false → ∀ name ∈ ns, ∃ r, v.getAttr name = .ok r) ∧
+    (v.isKnown = true → v.isNull = false →
+      (v.ty.isBool = true → ∃ b, asBool v = .ok b) ∧
+      (v.ty.isNumber = true → ∃ n, asNum v = .ok n) ∧
+      (v.ty.isString = true → ∃ s, asString v = .ok s ∧ nfc s = true) ∧
+      ((isCollection v.ty = true ∨ (∃ es, v.ty = .tuple es) ∨ ∃ ns ts os, v.ty = .object ns ts os) →
+        ∃ xs, elements v = .ok xs ∧ lengthInt v = .ok xs.length ∧ ∀ x ∈ xs, x.WF nfc = true)) := by
+  refine ⟨range_total v hv hm, ?_, ?_⟩
+  · intro ns ts os hty hn name hname
+    exact getAttr_total v hv hty hn name hname
+  · intro hk hn
+    obtain ⟨h1, h2, h3⟩ := prim_accessors_total v hv hm hk hn
+    exact ⟨h1, h2, h3, container_accessors_total v hv hm hk hn⟩
+
+/-- … and `Index` succeeds at every position of a well-formed known list, returning a well-formed member. -/
+theorem accessors_total_index (e : Ty) (vs : List Payload) (i : Nat) (hi : i < vs.length) (hmax : (i : Int) ≤ maxInt)
+    (hv : Value.WF nfc ⟨.list e, .seq vs⟩ = true) :
+    ∃ r, Value.index ⟨.list e, .seq vs⟩ (intVal i) = .ok r ∧ r.WF nfc = true := by
+  have h := (C02.index_list e vs i hmax).1
+  have hs : vs[i]? = some vs[i] := by simp [hi]
+  rw [hs] at h
+  exact ⟨_, h, wf_index _ _ _ hv h⟩
+
 /-! ## non-vacuity: the hypotheses are met by a nested, marked, partly unknown value, and the
 conclusions are not trivially true (neighbouring ill-formed values are rejected by `WF`) -/
 
@@ -155,6 +259,15 @@ example : Value.WF (fun _ => true) ⟨.string, .marked ["a"] (.marked ["b"] (.s 
 example : Value.WF (fun _ => true) ⟨.object ["a"] [.string] [true], .smap ["a"] [.s "x"]⟩ = false := by decide
 example : Value.WF (fun s => s != "é") ⟨.map .string, .smap ["é"] [.s "x"]⟩ = false := by decide
 example : Value.WF (fun _ => true) ⟨.set .string, .sset [5, 5] [.s "x", .s "x"]⟩ = false := by decide
+-- `setRulesOk` holds of ordinary members (and a marked member is hoisted)
+example : setRulesOk .string [(.s "a", 1), (.s "b", 2), (.s "a", 1)] = true := by decide
+example : (setVal [⟨.string, .s "a"⟩, ⟨.string, .marked ["m"] (.s "b")⟩, ⟨.string, .s "a"⟩] [1, 2, 1]).isOk = true := by
+  decide
+example : (match setVal [⟨.string, .s "a"⟩, ⟨.string, .marked ["m"] (.s "b")⟩, ⟨.string, .s "a"⟩] [1, 2, 1] with
+    | .ok r => r.WF (fun _ => true) && r.isMarked | _ => false) = true := by decide
+example : (match Refine.refine ⟨.list .string, .marked ["m"] (.unk .unref)⟩ [.notNull, .collectionLength 2] with
+    | .ok r => r.WF (fun _ => true) && r.isMarked && r.isKnown | _ => false) = true := by decide
+example : sample.isMarked = false ∧ sample.isKnown = true ∧ sample.isNull = false := by decide
 
 end C06
 end CtyModel
